@@ -769,6 +769,14 @@ class ResultsOp(IRDLOperation):
             operands=[parent], result_types=[result_type], properties={"index": index}
         )
 
+    def verify_(self) -> None:
+        # without an index all results are extracted: the custom form omits the type
+        if self.index is None and self.val.type != RangeType(ValueType()):
+            raise VerifyException(
+                "expected `pdl.range<value>` result type when no index is specified, "
+                f"but got: {self.val.type}"
+            )
+
     @classmethod
     def parse(cls, parser: Parser) -> ResultsOp:
         if parser.parse_optional_keyword("of") is not None:
